@@ -432,7 +432,8 @@ register("C11", streams=[Q("nopar", apis=["find_matches"], src=None)],
          observables=["full_results"], oracles=[oracles.match_truth_oracle, oracles.match_eq_oracle, oracles.eq_after_change_oracle, oracles.live_edit_oracle],
          rule="parent-free paths; every Match observable (path_as_str, data_name, data, path_match_list names, parent) compared; round trip through Match.path, duplicate-freedom and == on random pairs as python-side oracles")
 register("C12", streams=[Q("all", apis=ALL_APIS, src=True, untraced=0.4, share=3), Q("parent", apis=ALL_APIS, src=True, untraced=0.4, share=1),
-                         Q("nopar", apis=ALL_APIS, src=True, untraced=0.4, share=1, up=1.0)],
+                         Q("nopar", apis=ALL_APIS, src=True, untraced=0.4, share=1, up=1.0),
+                         Q("keyidx", apis=["get", "get", "get_match", "find"], src=True, untraced=0.7, share=2)],
          observables=["full_results"], oracles=[oracles.concat_oracle],
          extra=[families.MutateFamily("handles", 500, 15000, "searches from a Match that was written through (m.data = v, then find_matches(q, m)): locations and the node reached")],
          rule="pairs (p, q): every API function run on q from the k-th match of p, compared with the specification evaluated from the same match; p+q concatenation checked on the python side")
